@@ -316,7 +316,7 @@ impl Compiler {
 //@GHOST after="self.emit_u16(to_u16(pos_before_condition)?);" let ghost s_jump = *self;
 //@GHOST after="self.change_jump_operand_at(pos_jump_if_false, to_u16(self.instructions.len())?);" proof { /* the back jump leaves from the height the loop is entered with */ assert(s_body.height@ is Dead || s0.height@ is Conflict || s_body.height@ == s0.height@); /* the JumpIfFalse lands HERE */ self.height = Ghost(hjoin(self.height@, h_exit)); }
 //@PRELOOP 1 proof { self.loop_h = Ghost(self.loop_h@.drop_last()); assert(self.loop_h@ =~= old(self).loop_h@); } let ghost h_fin = self.height@; let ghost stops = __v@; let ghost len_final = self.instructions@.len() as int; let ghost n0 = old(self).instructions@.len() as int; let ghost pc = pos_jump_if_false as int; let ghost log_after_body = self.log@; proof { assert(stops == breaks(s_body, s_body.loop_contexts@.len() - 1)); assert(self.loop_contexts@ =~= s_jump.loop_contexts@.drop_last()); assert forall|i: int| 0 <= i < old(self).loop_contexts@.len() implies #[trigger] self.loop_contexts@[i].start == old(self).loop_contexts@[i].start && breaks(*self, i) == breaks(*old(self), i) by { assert(s0.loop_contexts@[i] == old(self).loop_contexts@[i]); assert(s_cond.loop_contexts@[i].start == s0.loop_contexts@[i].start); assert(breaks(s_cond, i) == breaks(s0, i)); assert(s_body.loop_contexts@[i].start == s_pre.loop_contexts@[i].start); assert(breaks(s_body, i) == breaks(s_pre, i)); assert(s_jump.loop_contexts@[i] == s_body.loop_contexts@[i]); } assert forall|j: int| 0 <= j < stops.len() implies stop_final(*self, n0, pc, len_final, #[trigger] stops[j] as int) by { assert(stop_ok(s_body, n0, pc, stops[j] as int)); assert(s_jump.instructions@[stops[j] as int] == s_body.instructions@[stops[j] as int]); }  assert(consts_syms_kept(*old(self), *self)) by { assert(consts_syms_kept(*old(self), s0)); assert(consts_syms_kept(s0, s_cond)); assert(consts_syms_kept(s_cond, s_pre)); assert(consts_syms_kept(s_pre, s_body)); assert(consts_syms_kept(s_body, s_jump)); } }
-//@LOOP 1 invariant sym_globals_kept(old(self).symbols, self.symbols), self.loop_h@ == old(self).loop_h@, self.height@ == h_fin, hstep(old(self).height@, h_fin, 1), __v@ == stops, consts_syms_kept(*old(self), *self), sym_wf(self.symbols), n0 == old(self).instructions@.len(), while_log(*old(self), log_after_body, pc, **condition, body@), self.instructions@.len() == len_final, len_final <= 0xFFFF, same_loops(*self, *old(self)), self.log@ == log_after_body, self.last_instruction == Some(OpCode::Jump), is_prefix(old(self).instructions@, self.instructions@), n0 < pc, pc + 4 <= len_final - 3, self.instructions@[n0] == opcode_byte(OpCode::Null), self.instructions@[pc] == byte_jif(), u16_at(self.instructions@, pc + 1) == len_final, self.instructions@[pc + 3] == opcode_byte(OpCode::Pop), self.instructions@[len_final - 3] == byte_jump(), u16_at(self.instructions@, len_final - 2) == n0 + 1, forall|j: int| 0 <= j < stops.len() ==> stop_final(*self, n0, pc, len_final, #[trigger] stops[j] as int), forall|j: int, k: int| 0 <= j < k < stops.len() ==> #[trigger] stops[j] + 3 <= #[trigger] stops[k], forall|j: int| 0 <= j < __it.index@ ==> u16_at(self.instructions@, #[trigger] stops[j] as int + 1) == len_final,
+//@LOOP 1 invariant sym_globals_kept(old(self).symbols, self.symbols), self.loop_h@ == old(self).loop_h@, 0 <= self.locals_bound@ <= sym_max_size(self.symbols), self.height@ == h_fin, hstep(old(self).height@, h_fin, 1), __v@ == stops, consts_syms_kept(*old(self), *self), sym_wf(self.symbols), n0 == old(self).instructions@.len(), while_log(*old(self), log_after_body, pc, **condition, body@), self.instructions@.len() == len_final, len_final <= 0xFFFF, same_loops(*self, *old(self)), self.log@ == log_after_body, self.last_instruction == Some(OpCode::Jump), is_prefix(old(self).instructions@, self.instructions@), n0 < pc, pc + 4 <= len_final - 3, self.instructions@[n0] == opcode_byte(OpCode::Null), self.instructions@[pc] == byte_jif(), u16_at(self.instructions@, pc + 1) == len_final, self.instructions@[pc + 3] == opcode_byte(OpCode::Pop), self.instructions@[len_final - 3] == byte_jump(), u16_at(self.instructions@, len_final - 2) == n0 + 1, forall|j: int| 0 <= j < stops.len() ==> stop_final(*self, n0, pc, len_final, #[trigger] stops[j] as int), forall|j: int, k: int| 0 <= j < k < stops.len() ==> #[trigger] stops[j] + 3 <= #[trigger] stops[k], forall|j: int| 0 <= j < __it.index@ ==> u16_at(self.instructions@, #[trigger] stops[j] as int + 1) == len_final,
 //@ARM file=compiler.rs fn=compile_expression impl=Compiler arm="Expr::While" rules="R1;R4;R13[ip in ctx.break_instructions]"
         proof {
             self.log = Ghost(self.log@.push(LogEntry { what: LogWhat::Stops(stops), start: n0, end: len_final, depth: 0, contexts: 0 }));
